@@ -409,7 +409,21 @@ pub fn classify_late(d: &Digest, p: &PipeResult, s: StoreIx, report_known: bool,
         let acts: std::collections::BTreeSet<ActId> = fs.iter().filter_map(|f| f.act).collect();
         let single_inflight = acts.len() == 1 && {
             let a = *acts.iter().next().unwrap();
-            runs.iter().find(|r| r.act == a).map(|r| r.reduced_at < ur).unwrap_or(false)
+            // the notification snapshot is taken after the action's last pre-notification callback
+            // returned. An action that had no such callback (a store without reducers and
+            // middlewares) shows nothing between the end of the previous action and its first
+            // notification: its snapshot may have been taken any time after the previous action's
+            // last callback (and after it was dispatched)
+            runs.iter().position(|r| r.act == a).map(|i| {
+                let r = &runs[i];
+                let lb = if r.reducers.is_empty() && r.hooks == 0 {
+                    let prev_end = if i > 0 { runs[i - 1].last } else { 0 };
+                    prev_end.max(d.disp_of(a).map(|x| x.inv).unwrap_or(0))
+                } else {
+                    r.reduced_at
+                };
+                lb < ur
+            }).unwrap_or(false)
         };
         let msg = format!("store {}: subscriber {} was notified of action(s) {:?} after its unsubscribe() had returned at @{}", s, sub, acts, ur);
         if single_inflight {
